@@ -2,7 +2,9 @@
 harness/c/drv_rfch.c.  argv[1] = trx_toolkit directory (imported fresh).
 
   M maio a0 a1 ...      mobile allocation and MAIO
-  Q hsn fn [hsn fn ..]  HoppingParams(hsn, maio, ma).resolve(fn) per pair
+  Q hsn fn [hsn fn ..]  resolve(fn) per pair on a long-lived HoppingParams object per
+                        (configuration, HSN), as Transceiver keeps one between SETFH commands
+  F hsn fn [hsn fn ..]  the same on a freshly constructed object per pair
   T h k                 table pass (HSN = h, T1 = T1R + 64 k) over T1R, T2, T3
 """
 import sys
@@ -28,6 +30,7 @@ def safe(fn_, *a):
 def main():
     ma = []
     maio = 0
+    kept = {}
     out = sys.stdout
     for line in sys.stdin:
         op = line[:1]
@@ -35,11 +38,23 @@ def main():
         if op == "M":
             maio = int(f[0])
             ma = [int(x) for x in f[1:]]
+            kept = {}
             out.write("M %d\n" % len(ma))
-        elif op == "Q":
+        elif op == "F":
             res = []
             for i in range(0, len(f) - 1, 2):
                 res.append(safe(lambda h_, f_: HP(h_, maio, ma).resolve(f_), int(f[i]), int(f[i + 1])))
+            out.write("Q " + " ".join(map(str, res)) + "\n")
+        elif op == "Q":
+            res = []
+
+            def reused(h_, f_):
+                hp = kept.get(h_)
+                if hp is None:
+                    hp = kept[h_] = HP(h_, maio, ma)
+                return hp.resolve(f_)
+            for i in range(0, len(f) - 1, 2):
+                res.append(safe(reused, int(f[i]), int(f[i + 1])))
             out.write("Q " + " ".join(map(str, res)) + "\n")
         elif op == "T":
             h, k = int(f[0]), int(f[1])
